@@ -1149,3 +1149,45 @@ func lookupAndParse(w *World, call *ssa.Call) (string, bool) {
 	}
 	return constant.StringVal(cst.Value), true
 }
+
+// isLookupOrDefault: h(m, key, def) returns m[key] when the key is present and def otherwise — every return is the
+// looked-up value under its presence flag, or the default parameter.
+func isLookupOrDefault(w *World, h *ssa.Function) bool {
+	if h == nil || h.Blocks == nil || !w.inModule(h) || len(h.Params) != 3 {
+		return false
+	}
+	okAll, nLook, nDef := true, 0, 0
+	allInstrs(h, func(in ssa.Instruction) {
+		r, isR := in.(*ssa.Return)
+		if !isR || len(r.Results) != 1 {
+			return
+		}
+		rv := unwrap(r.Results[0])
+		if rv == ssa.Value(h.Params[2]) {
+			nDef++
+			return
+		}
+		if ex, isEx := rv.(*ssa.Extract); isEx && ex.Index == 0 {
+			if lk, isLk := ex.Tuple.(*ssa.Lookup); isLk && lk.CommaOk && unwrap(lk.X) == ssa.Value(h.Params[0]) && unwrap(lk.Index) == ssa.Value(h.Params[1]) {
+				if guardedBy(in.Block(), true, func(x ssa.Value) bool {
+					e2, is2 := x.(*ssa.Extract)
+					return is2 && e2.Tuple == ssa.Value(lk) && e2.Index == 1
+				}) {
+					nLook++
+					return
+				}
+			}
+		}
+		okAll = false
+	})
+	// nothing else happens in it
+	allInstrs(h, func(in ssa.Instruction) {
+		switch in.(type) {
+		case *ssa.Store, *ssa.MapUpdate, *ssa.Send, *ssa.Go, *ssa.Defer:
+			okAll = false
+		case *ssa.Call:
+			okAll = false
+		}
+	})
+	return okAll && nLook == 1 && nDef >= 1
+}
